@@ -167,7 +167,7 @@ class RefResult:
 
 def ref_extract(x, env_step_size=1, max_iters=1000, stop_method='sd', sd_thresh=.1,
                 rilling_thresh=(0.05, 0.5, 0.05), envelope_opts=None, extrema_opts=None,
-                hard_cap=None):
+                hard_cap=None, ignore_input_ties=False):
     """The single-IMF sifting iteration as the property states it.
 
     iterate_{j+1} = iterate_j - step * mean(upper_j, lower_j); the result is the iterate at which the stop
@@ -188,7 +188,11 @@ def ref_extract(x, env_step_size=1, max_iters=1000, stop_method='sd', sd_thresh=
     while True:
         n += 1
         if proto.size > 1:
-            r.margin_tie = min(r.margin_tie, float(np.abs(np.diff(proto)).min()) / scale)
+            d = np.abs(np.diff(proto))
+            if n == 1 and ignore_input_ties:
+                d = d[d > 0]     # exact ties in a *given* input survive exact transforms of it
+            if d.size:
+                r.margin_tie = min(r.margin_tie, float(d.min()) / scale)
         up = envelope(proto, 'upper', method, extrema_opts)
         lo = envelope(proto, 'lower', method, extrema_opts)
         if up is None or lo is None:
@@ -229,3 +233,20 @@ def ref_extract(x, env_step_size=1, max_iters=1000, stop_method='sd', sd_thresh=
             r.kind, r.exit, r.niters = 'error', 'limit', n
             return r
         proto = proto - env_step_size * avg
+
+
+def conditioned_layers(x, imf, opts, envelope_opts, extrema_opts, tie=1e-7, stop=1e-6, max_layers=12):
+    """Number of leading columns of ``imf`` (a sift of x) whose extraction was well conditioned:
+    every stop decision further than ``stop`` (relative) from its threshold and no adjacent samples of
+    any iterate closer than ``tie`` (relative to the layer's scale). Later layers depend on earlier
+    ones, so counting stops at the first ill-conditioned layer."""
+    x = np.asarray(x, dtype=float).ravel()
+    good = 0
+    for j in range(min(imf.shape[1], max_layers)):
+        res = x - imf[:, :j].sum(axis=1)
+        r = ref_extract(res, envelope_opts=envelope_opts, extrema_opts=extrema_opts, hard_cap=1200,
+                        ignore_input_ties=(j == 0), **opts)
+        if r.kind == 'error' or r.note or r.margin_stop <= stop or r.margin_tie <= tie:
+            break
+        good += 1
+    return good
